@@ -93,7 +93,7 @@ fn pick_ks(n: u64, range: Option<(u64, u64)>, r: &mut Rng) -> Vec<u64> {
 /// The archive a writer finished successfully AFTER one of its calls had reported an I/O error: structure
 /// (end records, directory, local/central agreement, extents; payload decoding is not judged - the failed
 /// call may have been a data write) and no entry whose creating call returned an error.
-fn after_error_archive(st: &Shared, ops: &[Op], out: &ExecOut, sched: &str) -> Option<Verdict> {
+fn after_error_archive(st: &Shared, ops: &[Op], out: &ExecOut, sched: &str, decode: bool) -> Option<Verdict> {
     let img = image_of(st);
     let p = match crate::indep::parse(&img) {
         Ok(p) => p,
@@ -102,10 +102,32 @@ fn after_error_archive(st: &Shared, ops: &[Op], out: &ExecOut, sched: &str) -> O
     if crate::indep::ambiguous(img.as_slice(), &p).is_some() {
         return None;
     }
-    let none = |_: usize| None;
-    let all = |_: usize| true;
+    // `decode`: no DATA call (write / flush) failed - the error came from an entry-creating call or from finish().
+    // Then every listed entry received all its bytes through calls that reported success, and "stored CRC/sizes
+    // match the decoded data" (C02) is due as well. Passwords by entry name; a name created more than once is
+    // not decoded (which password belongs to which is not decidable from the names alone).
+    let mut by_name: std::collections::BTreeMap<Vec<u8>, Vec<Option<Vec<u8>>>> = Default::default();
+    for op in ops {
+        let (name, o) = match op {
+            Op::StartFile { name, o } | Op::StartAligned { name, o, .. } | Op::StartExtra { name, o } | Op::AddSymlink { name, o, .. } => (name.clone(), o),
+            Op::AddDir { name, o } => (if name.ends_with('/') || name.ends_with('\\') { name.clone() } else { format!("{name}/") }, o),
+            _ => continue,
+        };
+        by_name.entry(name.into_bytes()).or_default().push(o.password.as_ref().map(|h| h.0.clone()));
+    }
+    let unique = |i: usize| -> Option<&Option<Vec<u8>>> {
+        let c = p.centrals.get(i)?;
+        let v = by_name.get(&c.name)?;
+        if v.len() == 1 && p.centrals.iter().filter(|x| x.name == c.name).count() == 1 {
+            v.first()
+        } else {
+            None
+        }
+    };
+    let pws = |i: usize| unique(i).cloned().flatten();
+    let skip = |i: usize| !decode || unique(i).is_none();
     let no = |_: usize| false;
-    let vo = crate::indep::ValidateOpts { passwords: &none, allow_gaps: true, decode_limit: 0, skip_decode: &all, relax_entry: &no };
+    let vo = crate::indep::ValidateOpts { passwords: &pws, allow_gaps: true, decode_limit: if decode { 1 << 26 } else { 0 }, skip_decode: &skip, relax_entry: &no };
     let bad = crate::indep::validate(img.as_slice(), &p, &vo);
     if !bad.is_empty() {
         return Some(viol("C02/invalid-after-io-error", format!("finish() reported success after an earlier I/O error, but the archive is not self-consistent: {} || {sched}", bad.iter().take(3).cloned().collect::<Vec<_>>().join("; "))));
@@ -316,7 +338,11 @@ impl Scenario for IoFault {
                             let stale = stale0 || out.lives.iter().any(|(app, end, len)| *app && end < len);
                             if finish_ok && single && !on_src && base_img.is_none() && !stale && model_ok {
                                 ctx.probe("finish_succeeded_after_a_reported_error");
-                                if let Some(v) = after_error_archive(&st, &ops, &out, &sched) {
+                                let data_call_failed = ops.iter().zip(out.steps.iter()).any(|(op, stp)| !stp.res.is_ok() && matches!(op, Op::Write { .. } | Op::Flush));
+                                if !data_call_failed {
+                                    ctx.probe("finish_succeeded_after_a_reported_error:payload_judged");
+                                }
+                                if let Some(v) = after_error_archive(&st, &ops, &out, &sched, !data_call_failed) {
                                     return v;
                                 }
                             }
